@@ -203,6 +203,24 @@ impl Scenario for IoFault {
                 let cfg = GenCfg { max_entries: 3, max_content, methods: METHODS.to_vec(), extra: true, aligned: true, enc: true, n_sources: sources.len(), src_lens, append: true, long_names: false, comment_max: 30, misc_ops: true };
                 let mut ops = gen_program(&mut r, &cfg);
                 tame_levels(&mut ops);
+                if Rng::derive(s, "flush").chance(1, 4) {
+                    // flush() in the middle of an entry: the compressor is asked to emit what it holds, and the
+                    // failure then lands inside that (a failed Bzip2 flush used to hang the next call: D25)
+                    let mut rf = Rng::derive(s, "flush2");
+                    let ws: Vec<usize> = ops.iter().enumerate().filter(|(_, o)| matches!(o, Op::Write { .. })).map(|(i, _)| i).collect();
+                    if !ws.is_empty() {
+                        let at = *rf.pick(&ws);
+                        if rf.chance(1, 2) {
+                            // more output than the encoders' internal buffers hold (32 KiB): the flush is then
+                            // still in progress inside the compressor when the sink fails
+                            ops[at] = Op::Write { c: crate::content::Content::Rand { len: rf.range(33_000, 70_000), seed: rf.next_u64() }, split: vec![] };
+                        }
+                        ops.insert(at + 1, Op::Flush);
+                        if rf.chance(1, 2) {
+                            ops.insert(at + 2, Op::Write { c: crate::content::Content::Lit(crate::content::Hex(b"more".to_vec())), split: vec![] });
+                        }
+                    }
+                }
                 if rs.chance(1, 5) {
                     let mut l = gen_layout(&mut r, 3, 300, false);
                     l.trailing = 0;
@@ -256,10 +274,22 @@ impl Scenario for IoFault {
         let (src_stores, src_infos, _) = sources_to_stores(&c.sources);
         match c.kind {
             Kind::Writer => {
-                let ops = match &c.src {
+                let mut ops = match &c.src {
                     Source::Prog(o) => o.clone(),
                     _ => return Verdict::Harness("writer case without program".into()),
                 };
+                // C11 speaks of calls that return a Result. Ending a writer lifetime by Drop swallows the error of
+                // the implicit finalisation (it goes to stderr), so under fault injection every lifetime ends with
+                // an explicit finish() before the "restart" (false alarm of the thorough tier: a swallowed error in
+                // Drop, then new_append found the end record of a stored nested archive and carried on with it)
+                let mut i = 0;
+                while i < ops.len() {
+                    if matches!(ops[i], Op::Append) && i > 0 && !matches!(ops[i - 1], Op::Finish) {
+                        ops.insert(i, Op::Finish);
+                        i += 1;
+                    }
+                    i += 1;
+                }
                 let base_img = c.base.as_ref().map(|b| b.image());
                 let mk_store = || match &base_img {
                     Some(b) => shared_from(b),
